@@ -7,6 +7,7 @@
 -/
 import FjallModel.Lemmas.Ssi
 import FjallModel.Lemmas.SsiHist
+import FjallModel.Lemmas.CommitMutex
 namespace Fjall.Tx
 open Fjall Fjall.Spec
 
@@ -131,3 +132,78 @@ example :
   decide
 
 end Fjall.Tx
+
+/-! ### Why a commit may be taken as one event: the commit mutex across threads
+
+    `Oracle::with_commit` validates and applies in separate steps; `CommitMutex` runs any number of
+    threads through those steps under every schedule.  The semantics of the two halves are
+    parameters, `ssiSem` is the `Tx.Ssi` instance. -/
+
+namespace Fjall.CommitMutex
+open Fjall Fjall.Tx
+
+/-- **Commits are atomic under the commit mutex.** For any validation / application semantics,
+    any number of threads with any lists of commit requests and every schedule: at most one thread
+    is inside a commit; the verdicts reported so far are those of the finished commits executed
+    one after the other as single events (in the order they finished); and whenever no thread is
+    inside a commit the shared state is exactly the state of that sequential execution. -/
+theorem c07_commit_mutex_atomic {D T : Type} (m : Sem D T) (d0 : D) (jobs : List (List T)) (sched : List Nat) :
+    let s := run {} m (init d0 jobs) sched
+    (∀ i j, (s.threads i).phase ≠ .idle → (s.threads j).phase ≠ .idle → i = j) ∧
+    (runAtomic m d0 (s.done.map (·.1))).2 = s.done.map (·.2) ∧
+    (s.mutex = none → s.db = (runAtomic m d0 (s.done.map (·.1))).1) := by
+  intro s
+  have h : Inv m d0 s := run_inv m d0 _ (init_inv m d0 jobs) sched
+  refine ⟨?_, h.verdicts, ?_⟩
+  · intro i j hi hj
+    have h1 := h.excl i hi
+    have h2 := h.excl j hj
+    rw [h1] at h2
+    exact Option.some.inj h2
+  · intro hn
+    apply h.base
+    intro i hv
+    have := h.excl i (by rw [hv]; simp)
+    rw [hn] at this
+    cases this
+
+/-- a thread that has validated and not yet applied still sees the state it validated against:
+    nothing was committed in between -/
+theorem c07_validation_still_holds_at_apply {D T : Type} (m : Sem D T) (d0 : D) (jobs : List (List T))
+    (sched : List Nat) (i : Nat) (t : T) (rest : List T) :
+    let s := run {} m (init d0 jobs) sched
+    (s.threads i).phase = .validated → (s.threads i).todo = t :: rest →
+    m.validate (runAtomic m d0 (s.done.map (·.1))).1 t = (s.db, true) := by
+  intro s
+  exact (run_inv m d0 _ (init_inv m d0 jobs) sched).mid i t rest
+
+/-- the `Tx.Ssi` commit of a writing transaction is `ssiSem`'s atomic commit followed by the drop of
+    the transaction's nonce: the event model's commit is the instance the theorem above is about -/
+theorem c07_ssi_commit_is_atomic (db : SsiDb) (t : OTx) (hw : t.base.mem.isEmpty = false) :
+    db.commit t =
+      ({ (ssiSem.atomic db t).1 with tr := Tracker.step (ssiSem.atomic db t).1.tr (.close t.instant) },
+       if (ssiSem.atomic db t).2 then .ok else .conflict) := by
+  unfold SsiDb.commit Sem.atomic ssiSem
+  simp only [hw, Bool.false_eq_true, if_false]
+  by_cases hc : (db.committed.any fun c => c.ts ≥ t.instant + 1 && hasConflict t.reads c.keys) = true
+  · simp [hc]
+  · simp [hc]
+
+/-- **Without the mutex across validation and application (seeded change C07-7) commits are not
+    atomic**: both withdrawals validate against the same state and both are applied; executed one
+    after the other, in either order, the second one is refused. -/
+theorem c07_mutex_released_after_validation_counterexample :
+    let s := run { holdAcross := false } skew (init (50, 50) [[true], [false]]) [0, 0, 1, 1, 0, 1]
+    s.db = (-50, -50) ∧ s.done.map (·.2) = [true, true] ∧
+    (runAtomic skew (50, 50) [true, false]).2 = [true, false] ∧
+    (runAtomic skew (50, 50) [false, true]).2 = [true, false] := by
+  decide
+
+/-- non-vacuity: with the mutex held the same schedule lets the second thread wait, and the state is
+    the sequential one -/
+example :
+    let s := run {} skew (init (50, 50) [[true], [false]]) [0, 0, 1, 1, 0, 1, 1, 1]
+    s.db = (-50, 50) ∧ s.done.map (·.2) = [true, false] ∧ s.mutex = none := by
+  decide
+
+end Fjall.CommitMutex
